@@ -36,7 +36,8 @@ static int process_data(xfrm_stream_t *stream, const void *in,
 	if (flush_mode < 0 || flush_mode >= XFRM_STREAM_FLUSH_COUNT)
 		flush_mode = XFRM_STREAM_FLUSH_NONE;
 
-	while (in_size > 0 && out_size > 0) {
+	while ((in_size > 0 || flush_mode == XFRM_STREAM_FLUSH_FULL) &&
+	       out_size > 0) {
 		gzip->strm.next_in = (void *)in;
 		gzip->strm.avail_in = in_size;
 
@@ -70,6 +71,15 @@ static int process_data(xfrm_stream_t *stream, const void *in,
 			}
 
 			if (ret != Z_OK)
+				return XFRM_STREAM_ERROR;
+
+			return XFRM_STREAM_END;
+		}
+
+		/* no more input will follow and nothing is left to unpack */
+		if (!gzip->compress && in_size == 0 && diff == 0 &&
+		    flush_mode == XFRM_STREAM_FLUSH_FULL) {
+			if (gzip->strm.total_in > 0)
 				return XFRM_STREAM_ERROR;
 
 			return XFRM_STREAM_END;
